@@ -7,10 +7,12 @@ real_line(line)   -> [0] (no entry: blank/comment line) | [1] (ParserSyntaxExcep
 real_text(lines)  -> rv_asm.tokens_of("\\n".join(lines)) as [0, lines] | [1, line number]
 CoqLex(driver)    -> the same two functions evaluated by the extracted Lex.lex_line / Lex.lex_text
                      (private driver built from /tmp/lexwork/MainLex.v, see the comment at the end)
+e2e               -> Lex.rv_load_text on source text against RiscvSimulation.load_program (errors, listing, data bytes)
 main              -> the validation loop: rendered programs, the malformed streams of props/c15.py, token-soup
                      mutations; per class: lines, outcomes, disagreements.
 
-Run:  cd /verif && PYTHONPATH=/repo:/verif/harness PYTHONHASHSEED=0 /venv/bin/python harness/lex_corr.py [n] [seed]
+Run:  cd /verif && PYTHONPATH=/repo:/verif/harness PYTHONHASHSEED=0 /venv/bin/python harness/lex_corr.py build        (once)
+      ... harness/lex_corr.py [n] [seed]      |      ... harness/lex_corr.py e2e [texts] [seed]
 """
 from __future__ import annotations
 import os
@@ -109,6 +111,10 @@ class CoqLex:
 
     def text(self, lines):
         return self._call([1] + [_codes(l) for l in lines])
+
+    def load(self, lines):
+        """Lex.rv_load_text on a fresh state without caches: [error?, image?, lower memory]"""
+        return self._call([2] + [_codes(l) for l in lines])
 
     def close(self):
         self.p.stdin.close()
@@ -302,7 +308,129 @@ def main(n_lines=60000, seed=1):
     return len(bad)
 
 
+def e2e(n_texts=3000, seed=5):
+    """end to end: Lex.rv_load_text (tokenizer + assembler of the model, from SOURCE TEXT) against
+    RiscvSimulation.load_program: error class and line, instruction listing (fields and repr), data bytes"""
+    from rv_asm import impl_load, listing, lower_bytes
+    from props import c15
+    rng = random.Random(seed)
+    coq = CoqLex()
+    cnt = Counter()
+    bad = []
+    for _ in range(n_texts):
+        r = rng.random()
+        ap = gen_abs(rng, n_max=rng.choice([6, 14]))
+        text = render(rng, ap)
+        if r < 0.35:
+            text = c15.inject(rng, text, c15.RV_FAULTS)
+        elif r < 0.5:
+            text = "\n".join(mutate(rng, l) if rng.random() < 0.15 else l for l in text.split("\n"))
+        lines = text.splitlines()
+        sim, err = impl_load(text)
+        m = coq.load(lines)
+        merr = m[0][0] if m[0] else None
+        if err is not None:
+            cnt["err:%d" % err[0]] += 1
+            if merr is None or merr[:2] != err[:2]:
+                if not (merr is not None and err[0] in (9, 10) and merr[0] in (9, 10)):
+                    bad.append((text, err, merr))
+            continue
+        cnt["ok"] += 1
+        if merr is not None:
+            bad.append((text, None, merr))
+            continue
+        img = m[1][0]
+        if [[list(f), list(rp)] for f, rp in img[0]] != listing(sim):
+            bad.append((text, "listing", None))
+        elif [list(p) for p in m[2]] != [list(p) for p in lower_bytes(sim)]:
+            bad.append((text, "data bytes", None))
+    coq.close()
+    print("e2e texts", n_texts, dict(cnt), "disagreements", len(bad))
+    for b in bad[:10]:
+        print(repr(b[0]), b[1], b[2])
+    return len(bad)
+
+
+MAINLEX_V = r'''From Coq Require Import Extraction ExtrOcamlBasic.
+From ArchSim Require Import Model.Base Model.Mem Model.Cache Model.Fmt Model.RV Model.Single Model.Toy Model.Asm Model.Sx Model.Lex.
+Open Scope Z_scope.
+Definition sx_reg (r : regtok) : sx := match r with RAbi s => Lx [Zx 0; sx_zs s] | RX d => Lx [Zx 1; sx_zs d] end.
+Definition sx_ntok (i : ntok) : sx :=
+  Lx [Zx (n_mn i); sx_opt sx_reg (n_rd i); sx_opt sx_reg (n_rs1 i); sx_opt sx_reg (n_rs2 i);
+      sx_opt sx_reg (n_reg1 i); sx_opt sx_reg (n_reg2 i); sx_opt sx_reg (n_rs i);
+      sx_opt sx_zs (n_imm i); sx_opt sx_zs (n_csr i); sx_opt sx_zs (n_uimm i); sx_opt sx_zs (n_offset i);
+      sx_opt sx_zs (n_label i);
+      sx_opt (fun v : str * option str => Lx [sx_zs (fst v); sx_opt sx_zs (snd v)]) (n_var i)].
+Definition sx_nbody (b : nbody) : sx := match b with NStr k => Lx [Zx 0; Zx k] | NIns i => Lx [Zx 1; sx_ntok i] end.
+Definition sx_nline (l : nline) : sx :=
+  match l with
+  | NDirective d => Lx [Zx 0; Zx d]
+  | NVarDecl n ty v => Lx [Zx 1; sx_zs n; Zx ty; sx_list sx_zs v]
+  | NStrDecl n s => Lx [Zx 2; sx_zs n; sx_zs s]
+  | NZeroDecl n v => Lx [Zx 3; sx_zs n; sx_zs v]
+  | NLabelDecl n => Lx [Zx 4; sx_zs n]
+  | NInstr il b => Lx [Zx 5; sx_opt sx_zs il; sx_nbody b]
+  end.
+Definition sx_lexres (r : lexres) : sx :=
+  match r with LexSkip => Lx [Zx 0] | LexSyntax => Lx [Zx 1] | LexOk l => Lx [Zx 2; sx_nline l] end.
+(* interned form, the layout of tokens_of *)
+Definition sx_itok (i : itok) : sx :=
+  Lx [Zx (k_mn i); sx_opt sx_reg (k_rd i); sx_opt sx_reg (k_rs1 i); sx_opt sx_reg (k_rs2 i);
+      sx_opt sx_reg (k_reg1 i); sx_opt sx_reg (k_reg2 i); sx_opt sx_reg (k_rs i);
+      sx_opt sx_zs (k_imm i); sx_opt sx_zs (k_csr i); sx_opt sx_zs (k_uimm i); sx_opt sx_zs (k_offset i);
+      sx_opt Zx (k_label i);
+      sx_opt (fun v : Z * option str => Lx [Zx (fst v); sx_opt sx_zs (snd v)]) (k_var i)].
+Definition sx_tbody (b : tbody) : sx :=
+  match b with BStr k => Lx [Zx 0; Zx k] | BIns i => Lx [Zx 1; sx_itok i] | BOther => Lx [Zx 2] end.
+Definition sx_rline (p : Z * rline) : sx :=
+  let ln := Zx (fst p) in
+  match snd p with
+  | RDirective d => Lx [ln; Zx 0; Zx d]
+  | RVarDecl n ty v => Lx [ln; Zx 1; Zx n; Zx ty; sx_list sx_zs v]
+  | RStrDecl n s => Lx [ln; Zx 2; Zx n; sx_zs s]
+  | RZeroDecl n v => Lx [ln; Zx 3; Zx n; sx_zs v]
+  | RLabelDecl n => Lx [ln; Zx 4; Zx n]
+  | RInstr il b => Lx [ln; Zx 5; sx_opt Zx il; sx_tbody b]
+  end.
+Definition sx_ltres (r : ltres) : sx :=
+  match r with LTOk l => Lx [Zx 0; sx_list sx_rline l] | LTSyntax ln => Lx [Zx 1; Zx ln] end.
+(* request: (0 line line ...) -> per-line results;  (1 line line ...) -> lex_text *)
+Definition dispatch_all (req : sx) : sx :=
+  match dl req with
+  | Zx 0 :: ls => Lx (map (fun l => sx_lexres (lex_line (dzs l))) ls)
+  | Zx 1 :: ls => sx_ltres (lex_text (map dzs ls))
+  | Zx 2 :: ls =>
+      let s0 := init_st [] (dmemsys (Lx []) []) (dicache (Lx [])) in
+      let '(s1, e, img) := rv_load_text s0 (map dzs ls) in
+      Lx [sx_opt sx_perr e; sx_opt sx_image img; sx_zmap_sorted (ms_lower (ms s1))]
+  | _ => Lx []
+  end.
+Extraction Language OCaml.
+Extraction "model.ml" dispatch_all.
+'''
+
+
+def build_driver(workdir="/tmp/lexwork"):
+    """(re)build the private extracted driver: MainLex.v -> model.ml, linked with a copy of /verif/ocaml/driver.ml"""
+    import os
+    import shutil
+    os.makedirs(workdir, exist_ok=True)
+    with open(os.path.join(workdir, "MainLex.v"), "w") as f:
+        f.write(MAINLEX_V)
+    w = "-notation-overridden,-deprecated-hint-without-locality,-deprecated-instance-without-locality,-extraction"
+    subprocess.check_call(["coqc", "-Q", "/verif/coq/theories", "ArchSim", "-w", w, "MainLex.v"], cwd=workdir)
+    shutil.copy("/verif/ocaml/driver.ml", os.path.join(workdir, "driver.ml"))
+    subprocess.check_call(["ocamlfind", "ocamlopt", "-w", "-a", "-package", "str", "model.mli", "model.ml", "driver.ml", "-o", "driver"],
+                          cwd=workdir)
+    return os.path.join(workdir, "driver")
+
+
 if __name__ == "__main__":
+    if len(sys.argv) > 1 and sys.argv[1] == "build":
+        print(build_driver())
+        sys.exit(0)
+    if len(sys.argv) > 1 and sys.argv[1] == "e2e":
+        sys.exit(1 if e2e(int(sys.argv[2]) if len(sys.argv) > 2 else 3000, int(sys.argv[3]) if len(sys.argv) > 3 else 5) else 0)
     n = int(sys.argv[1]) if len(sys.argv) > 1 else 60000
     sd = int(sys.argv[2]) if len(sys.argv) > 2 else 1
     sys.exit(1 if main(n, sd) else 0)
